@@ -539,6 +539,103 @@ pub fn run_par_case(ctx: &mut GridCtx, desc: &QDesc, seq: SeqFn, par: ParFn) {
     }
 }
 
+// ---------------------------------------------------------------------------------------------
+// C15: resource views — every subset x order x kind of a three-resource list, through four access paths
+
+pub type R2 = crate::comp::Big<12>;
+pub type Res3 = brood::Resources!(R0, R1, R2);
+pub type W3 = brood::World<Reg, Res3>;
+pub const RES_INIT: [u32; 3] = [11, 22, 33];
+pub const RES_DELTA: u32 = 1000;
+
+pub fn rr<C: Comp>(x: &C) -> u32 {
+    x.read().0
+}
+pub fn rw<C: Comp>(x: &mut C) -> u32 {
+    let v = x.read().0;
+    x.set(v + RES_DELTA);
+    v
+}
+
+fn build_w3() -> W3 {
+    let mut w = W3::with_resources(brood::resources!(R0::make(RES_INIT[0]), R1::make(RES_INIT[1]), R2::make(RES_INIT[2])));
+    w.insert(brood::entity!(A::make(1), B::make(2)));
+    w.insert(brood::entity!(O::make(3)));
+    w.insert(brood::entity!());
+    w
+}
+
+fn read_all_paths(w: &mut W3) -> Vec<[u32; 3]> {
+    use brood::query::{filter, result, Views};
+    let mut out = Vec::new();
+    out.push([w.get::<R0, _>().read().0, w.get::<R1, _>().read().0, w.get::<R2, _>().read().0]);
+    out.push([w.get_mut::<R0, _>().read().0, w.get_mut::<R1, _>().read().0, w.get_mut::<R2, _>().read().0]);
+    {
+        let result!(c, b, a) = w.view_resources::<Views!(&R2, &R1, &R0), _>();
+        out.push([a.read().0, b.read().0, c.read().0]);
+    }
+    {
+        let res = w.query(brood::Query::<Views!(&A), filter::None, Views!(&R1, &R0, &R2)>::new());
+        let result!(b, a, c) = res.resources;
+        out.push([a.read().0, b.read().0, c.read().0]);
+    }
+    out
+}
+
+/// `views`: (resource index, mutable) in requested order; `access(world, path)` performs the access through
+/// path 0 `view_resources`, 1 `query` resource views, 2 `par_query` resource views, 3 `run_system`, returning the
+/// value read through each view (mutable views additionally add `RES_DELTA`).
+pub fn run_res_case(ctx: &mut GridCtx, label: &'static str, views: &[(usize, bool)], access: &dyn Fn(&mut W3, u8) -> Vec<u32>) {
+    ctx.stats.instantiations += 1;
+    for path in 0..4u8 {
+        arena::begin(0);
+        comp::ledger_begin();
+        let mut fails: Vec<(String, String)> = Vec::new();
+        {
+            let mut w = build_w3();
+            let w2 = w.clone();
+            let got = access(&mut w, path);
+            ctx.stats.evaluations += 1;
+            let want: Vec<u32> = views.iter().map(|(i, _)| RES_INIT[*i]).collect();
+            if got != want {
+                fails.push((format!("resource-view-returned-wrong-resource path={}", path), format!("views {:?}: read {:?}, expected {:?}", views, got, want)));
+            }
+            let mut exp = RES_INIT;
+            for (i, m) in views {
+                if *m {
+                    exp[*i] += RES_DELTA;
+                }
+            }
+            for (pi, r) in read_all_paths(&mut w).iter().enumerate() {
+                if *r != exp {
+                    fails.push((format!("write-not-visible-through-other-path path={} readback={}", path, pi), format!("views {:?}: resources read {:?}, expected {:?}", views, r, exp)));
+                }
+            }
+            // an independent clone taken before the access is untouched
+            let mut w2 = w2;
+            if read_all_paths(&mut w2)[0] != RES_INIT {
+                fails.push(("resource-access-changed-a-clone".into(), format!("{:?}", views)));
+            }
+            let errs = comp::with_ledger(|l| l.errors.clone()).unwrap_or_default();
+            if !errs.is_empty() {
+                fails.push(("bad-value-observed".into(), format!("{:?}", errs)));
+            }
+        }
+        let sys: Vec<(String, String)> = arena::with_system(|| fails.iter().map(|(a, b)| (a.as_str().to_owned(), b.as_str().to_owned())).collect());
+        drop(fails);
+        drop(comp::ledger_end());
+        let rep = arena::end();
+        for (k, d) in sys {
+            if !ctx.found.iter().any(|f| f.0 == "C15" && f.1 == k) {
+                ctx.found.push(("C15".into(), k.replace(' ', "_"), format!("[{}] {}", label, d), format!("{{\"engine\":\"grid\",\"case\":{},\"world_index\":0,\"world_history\":[]}}", crate::util::json_str(label))));
+            }
+        }
+        if !rep.errors.is_empty() || rep.leaked_blocks > 0 {
+            ctx.found.push(("C15".into(), "allocator-misuse-or-leak-in-resource-access".into(), format!("[{}] {}", label, rep.describe()), format!("{{\"engine\":\"grid\",\"case\":{},\"world_index\":0,\"world_history\":[]}}", crate::util::json_str(label))));
+        }
+    }
+}
+
 /// Shard driver used by the generated binaries.
 pub fn shard_main(cases: &[(&str, fn(&mut GridCtx))]) {
     let args: Vec<String> = std::env::args().collect();
